@@ -116,10 +116,105 @@ fn scenarios(tier: &str) -> Vec<C13> {
     v
 }
 
+// ---------------------------------------------------------------------------------------
+// the application's four indications, every combination
+// ---------------------------------------------------------------------------------------
+
+/// every combination of the four indications the application can raise (need time, local
+/// control, device trouble, configuration corrupt) x the kind of response that reports them
+/// (null unsolicited response at start-up, answer to a non-READ request, READ answer, data
+/// unsolicited response): each bit mirrors the application's answer, independently of the others
+pub struct AppIinProduct;
+
+const APP_KINDS: [&str; 4] = ["null-unsolicited", "non-read-answer", "read-answer", "data-unsolicited"];
+
+impl crate::explore::CaseSpace for AppIinProduct {
+    fn name(&self) -> String {
+        "application-indications".into()
+    }
+    fn seeded(&self) -> bool {
+        true
+    }
+    fn total(&self) -> usize {
+        16 * APP_KINDS.len()
+    }
+    fn run(&self, index: usize, transcript: bool) -> RunResult {
+        use crate::explore::Violation;
+        use crate::osim::{OCfg, OSim};
+        use crate::wire::app::{self, fc};
+        use dnp3::outstation::database::*;
+        let mut res = RunResult::default();
+        let bits = index % 16;
+        let kind = index / 16;
+        res.obs = index as u64 + 1313;
+        let unsol = kind == 0 || kind == 3;
+        let cfg = OCfg { unsolicited: unsol, event_buf: [5; 8], ..Default::default() };
+        let mut sim = OSim::new_paused_app(&cfg, 1, |a| {
+            a.iin.need_time = bits & 1 != 0;
+            a.iin.local_control = bits & 2 != 0;
+            a.iin.device_trouble = bits & 4 != 0;
+            a.iin.config_corrupt = bits & 8 != 0;
+        });
+        sim.db(|db| {
+            db.add(0, Some(EventClass::Class1), BinaryInputConfig::default());
+        });
+        let resp: Option<app::Resp> = match kind {
+            0 => {
+                sim.pump();
+                sim.take_out().iter().filter_map(|t| t.frag()).filter_map(app::Resp::parse).find(|r| r.uns())
+            }
+            1 | 2 => {
+                sim.take_out();
+                let f = if kind == 1 { app::request(1, fc::DELAY_MEASURE, &[]) } else { app::request(1, fc::READ, &app::hdr_all(60, 1)) };
+                sim.send(&f);
+                sim.take_out().iter().filter_map(|t| t.frag()).filter_map(app::Resp::parse).find(|r| !r.uns() && r.seq() == 1)
+            }
+            _ => {
+                super::common::null_unsol_handshake(&mut sim);
+                sim.send(&app::request(1, fc::ENABLE_UNSOLICITED, &app::class_headers(true, true, true, false)));
+                sim.take_out();
+                sim.db(|db| {
+                    db.update(0, &super::common::binary(true, 1), UpdateOptions::detect_event());
+                });
+                sim.pump();
+                sim.take_out().iter().filter_map(|t| t.frag()).filter_map(app::Resp::parse).find(|r| r.uns())
+            }
+        };
+        res.transitions += 1;
+        let key = format!("{}:{}", APP_KINDS[kind], ["need-time", "local-control", "device-trouble", "config-corrupt"].iter().enumerate().filter(|(i, _)| bits & (1 << i) != 0).map(|(_, n)| *n).collect::<Vec<_>>().join("+"));
+        if let Some(f) = sim.failure() {
+            res.violation = Some(Violation::new("C13.X0", f.clone(), f));
+            return res;
+        }
+        let Some(r) = resp else {
+            res.violation = Some(Violation::new("C13.P0", key, "no response observed".to_string()));
+            return res;
+        };
+        if transcript {
+            res.transcript.push(format!("application answers {bits:04b} (corrupt, trouble, local, need-time) -> {}", app::hex(&r.raw[..4])));
+        }
+        let got = ((r.iin1 >> 4) & 1) | (((r.iin1 >> 5) & 1) << 1) | (((r.iin1 >> 6) & 1) << 2) | (((r.iin2 >> 5) & 1) << 3);
+        if got as usize != bits {
+            res.violation = Some(Violation::new(
+                "C13.P1",
+                key,
+                format!("the application reports (config-corrupt, device-trouble, local-control, need-time) = {bits:04b}; the {} carries {got:04b} (IIN {:02X} {:02X})", APP_KINDS[kind], r.iin1, r.iin2),
+            ));
+            return res;
+        }
+        res.nontrivial = true;
+        res.model_states.push(index as u64);
+        res
+    }
+}
+
 pub fn replay(scenario: &str, path: &[usize]) -> Option<RunResult> {
     use crate::explore::CaseSpace;
     if scenario == super::c03x::OverflowPerType.name() {
         return Some(super::c03x::OverflowPerType.run(path[0], true));
+    }
+    if scenario == AppIinProduct.name() {
+        return Some(AppIinProduct.run(path[0], true));
     }
     scenarios("thorough").into_iter().find(|s| s.inner.name == scenario).map(|s| s.run(path, true))
 }
@@ -130,9 +225,10 @@ pub fn check(tier: &str) -> i32 {
         c.explore(&s);
     }
     c.cases(&super::c03x::OverflowPerType);
+    c.cases(&AppIinProduct);
     c.finish(
         "model_checking",
-        "(overflow per type) every ordered pair of the 8 event types (one overflowed, the other holding exactly its limit or one less): the overflow bit is reported with the discard, stays after the confirmation exactly if a type is still at capacity, and clears once that type is confirmed too; (histories) every event history over the listed alphabet (C03's alphabet plus broadcasts of the three confirm modes, WRITE of the restart bit to 0 and 1, reconnect, flips of the application's need-time / config-corrupt answers) up to the listed depth, executed on the real OutstationTask; for every first transmission of a response the oracle recomputes IIN1 and IIN2.3/2.5 from the event ledger and the indication model and compares all ten bits; non-trivial = at least two responses were checked; distinct = distinct observation trace",
+        "(application indications) all 16 combinations of the application's need-time / local-control / device-trouble / config-corrupt answers x 4 kinds of response (null unsolicited, non-READ answer, READ answer, data unsolicited): each bit mirrors the answer; (overflow per type) every ordered pair of the 8 event types (one overflowed, the other holding exactly its limit, one less, or configured to keep no events at all): the overflow bit is reported with the discard, stays after the confirmation exactly if a type is still at capacity, and clears once that type is confirmed too; (histories) every event history over the listed alphabet (C03's alphabet plus broadcasts of the three confirm modes, WRITE of the restart bit to 0 and 1, reconnect, flips of the application's need-time / config-corrupt answers) up to the listed depth, executed on the real OutstationTask; for every first transmission of a response the oracle recomputes IIN1 and IIN2.3/2.5 from the event ledger and the indication model and compares all ten bits; non-trivial = at least two responses were checked; distinct = distinct observation trace",
         &[
             "byte-identical re-sends of the response awaiting confirmation carry the bits of the moment they were built and are exempt",
             "updates are placed at quiescent points (H6 lock-point placements are not built)",
